@@ -67,6 +67,10 @@ def run(ctx):
     rule_auth(ctx, F)
     rule_nx(ctx, F)
     rule_any(ctx, F)
+    rule_wipe(ctx, F)
+    rule_mark(ctx, F)
+    import c10
+    c10.rule_keepttl(ctx, F)      # history independence: a deletion does not touch the other records' TTL
     # the answer depends on the current records only if the versioned containers mask, restore and roll back correctly
     import c09
     c09.rule_ver(ctx, F)
@@ -525,3 +529,58 @@ def rule_any(ctx, F):
                "for QTYPE ANY query_rrsets looks at the first entry of the node's type map only (%s) and answers NODATA when "
                "that entry has no RRset at the reader's version: an RRset type added by an uncommitted writer (or removed "
                "in a later version) changes a held reader's answer, depending on hash order" % how, where)
+
+
+# ---------------------------------------------------------------------------
+# C08.wipe / C08.mark: the write path keeps the marker and the subtree apart
+# ---------------------------------------------------------------------------
+
+def rule_wipe(ctx, F):
+    """`ZoneNode::remove_all(version)` -- what a full replacement of the zone calls on every node -- removes the node's RRsets,
+    its special marker and (recursively) its children on *every* path: the NXDOMAIN marker describes the node's own RRsets
+    only, a node that carries it can still have children (an empty non-terminal)."""
+    R = "C08.wipe"
+    ctx.floor(R, 3)
+    b = _one(F, r"^zonetree::in_memory::nodes::ZoneNode::remove_all$")
+    if not ctx.anchor(R, "ZoneNode::remove_all", b):
+        return
+    from rulelib import must_pass
+    rets = b.return_blocks()
+    for what, rx in (("the node's RRsets", r"NodeRrsets::remove_all$"), ("the special marker", r"Versioned::<.*>::remove$|Versioned::remove$"),
+                     ("the children", r"NodeChildren::remove_all$")):
+        sites = [bb for bb, tt in b.calls() if re.search(rx, tt["fn"] or "")]
+        ok = bool(sites) and all(must_pass(b, 0, [r], sites)[0] for r in rets)
+        ctx.ob(R, b, "remove_all always removes %s" % what, ok,
+               "ZoneNode::remove_all can return without removing %s (an early exit, e.g. for a node that already carries the "
+               "NXDOMAIN marker): records below an empty non-terminal survive a full replacement of the zone and are answered "
+               "next to the new ones" % what)
+
+
+def rule_mark(ctx, F):
+    """check_nx_domain sets or clears the NXDOMAIN marker only for a node that has no marker or the NXDOMAIN marker; a cut or
+    CNAME marker is left alone when an RRset is stored at its owner."""
+    R = "C08.mark"
+    ctx.floor(R, 2)
+    bs = [b for p, b in F.bodies.items() if re.match(r"^zonetree::in_memory::write::WriteNode::check_nx_domain::\{closure#0\}$", p)]
+    if not ctx.anchor(R, "WriteNode::check_nx_domain closure", len(bs) == 1):
+        return
+    b = bs[0]
+    n = 0
+    for bi in sorted(b.reachable_blocks()):
+        if b.blocks[bi].get("c"):
+            continue
+        for st in b.blocks[bi]["s"]:
+            if st[0] == "=" and st[1] == [0] and st[2][0] == "agg" and st[2][1][0] == "adt" and st[2][1][1] == "core::option::Option" and st[2][1][2] == "Some":
+                n += 1
+                kinds = set()
+                for tm, v, _e in facts_at(b, bi, F):
+                    if isinstance(v, tuple) and v[0] == "variant":
+                        kinds.add(v[1])
+                    if isinstance(v, tuple) and v[0] == "notvariant":
+                        kinds.add("not:" + ",".join(map(str, v[1])))
+                ok = ("None" in kinds) or ("NxDomain" in kinds)
+                ctx.ob(R, b, "marker decision #%d is taken only for an unmarked or NXDOMAIN-marked node" % n, ok,
+                       "check_nx_domain decides to set / clear the NXDOMAIN marker for a node whose marker is something else (the "
+                       "arm is not restricted to `None` / `Some(NxDomain)`): storing an RRset at the owner of a zone cut or a CNAME "
+                       "wipes that marker, and the delegation is answered authoritatively instead of with a referral",
+                       b.where(bi), detail="variant facts: %s" % sorted(kinds))
